@@ -430,7 +430,18 @@ func statusName(err error) string {
 	return "other"
 }
 
-const watchdog = 4 * time.Second
+// watchdog for a subscriber that never becomes quiescent / an RPC that never
+// returns.  Generous (other checks load the machine), but after a few hangs
+// in one run it is shortened so that a tree that hangs everywhere still ends.
+var watchdog = 15 * time.Second
+var hangs int
+
+func noteHang() {
+	hangs++
+	if hangs >= 3 {
+		watchdog = time.Second
+	}
+}
 
 func pbRequest(r *Req) *pb.SubscribeRequest {
 	if !r.HasSub {
@@ -525,6 +536,7 @@ func runScript(c *Case, withACL bool) *Run {
 		if started && !hung {
 			if !settle(done, watchdog) {
 				hung = true
+				noteHang()
 			}
 		}
 		ob.Group = st.take()
@@ -817,7 +829,18 @@ func (e *emitter) add(family string, c Case) {
 		}
 	}
 	e.meta.Hist(fmt.Sprintf("polls:%d", npoll))
-	e.meta.Hist(fmt.Sprintf("responses:%02d", (nresp/4)*4))
+	switch {
+	case nresp == 0:
+		e.meta.Hist("responses:0")
+	case nresp == 1:
+		e.meta.Hist("responses:1")
+	case nresp < 4:
+		e.meta.Hist("responses:2-3")
+	case nresp < 8:
+		e.meta.Hist("responses:4-7")
+	default:
+		e.meta.Hist("responses:8+")
+	}
 	e.meta.Count(family, string(canon), e.nontriv(&c), map[string]interface{}{"family": family, "req": c.Req, "ops": len(c.Ops), "status": c.R1.Status, "responses": nresp})
 	if len(e.cf.terms) >= e.limit {
 		e.flush()
